@@ -3,6 +3,9 @@
 import json
 ALL = ["C%02d" % i for i in range(1, 21)]
 CHECKS = {
+ "C20": dict(level="fault_enumeration", technique="exhaustive fault-position enumeration through the io.Writer seam plus exhaustive weight functions over a value set",
+   text="Fault-free: every weight function over a 7-value set (with MinInt64/MaxInt64) for n<=3, over 4 values for n=4 (7 in thorough) and 2 for n=5 is written and parsed back line by line (header, DIMENSION, row shapes, every weight, EOF, weights only called with 0<=j<i<n). Faults: for every (n<=4, weight function over 3 values) the W underlying Write calls are counted and every position p<W x {permanent, transient} x {zero, short count} is injected; LIB must return non-nil.",
+   note="Trusted: the fault-injecting writer (30 lines). The writer obeys the io.Writer contract.", ref="§3 C20"),
  "C15": dict(level="exploration", technique="bounded-exhaustive enumeration of iterator parameters and of all predicates in small scope, each iterator driven as a state machine against a naive reference enumeration",
    text="Every parameter tuple in a box containing each special-cased boundary (n=0,1; k=0,n,n+1,n+2; zero/repeated multiplicities; empty and zero factors) is driven to exhaustion plus three further Next calls and compared, as a sequence where an order is documented and as a repeat-free set otherwise, with a naive recursive enumeration; RestrictedPrefixProduct over every predicate on prefix trees with <=14 nodes (17 thorough), RestrictedPrefixPermutations n<=3 over all 2^15 predicates, PermutationsByPattern n<=3 over all 2^9, TopologicalSorts n<=6 over every relation, plus pattern-avoidance / position / parity predicate families for n<=6. Each case runs under a 15 s non-termination guard.",
    note="Trusted: the naive enumerators. Predicates are pure. Larger n are not covered.", ref="§3 C15"),
